@@ -122,10 +122,28 @@ DefText(lay) ==
     IN Number(leadL \o decoL \o midL \o hdrL \o docL \o bodyL \o tailL)
 
 \* lambda statements: lamA/lamB hold the lambda expression, lpre/lpost only other text
+\* statements holding SEVERAL lambdas (objects only): one entry per physical line
+\*   dict  T = {"a": <lambda>,\n "b": <lambda>,\n "c": <lambda>}     pair  p1, p2 = mk(<lambda>,\n <lambda>)
+\*   same  p1, p2 = mk(<lambda>, <lambda>)  on ONE line
+\* lay.pick says which of them the cells is made from; the others are "lsib" lines
+MultiEmbeds == {"dict", "pair", "same"}
+NEntries(e) == IF e = "dict" THEN 3 ELSE 2
+MultiText(lay) ==
+    LET b == Ind(lay.ws)
+        entry(i) == LET c == IF i = 1 THEN b ELSE b + 4 IN
+                    IF i # lay.pick THEN <<L("lsib", c, 0)>>
+                    ELSE CASE lay.ml = "none"  -> <<L("lamA", c, 1)>>
+                           [] lay.ml = "own"   -> <<L("lamA", c, 1), L("lamB", c + 4, 1)>>
+                           [] lay.ml = "outer" -> <<L("lamA", c, 1), L("lamB", c + 4, 0)>>
+    IN IF lay.embed = "same" THEN <<L("lamA", b, 1)>>
+       ELSE IF lay.embed = "pair" THEN entry(1) \o entry(2)
+       ELSE entry(1) \o entry(2) \o entry(3)
+
 LamText(lay) ==
     LET b == Ind(lay.ws)
         c == b + 4
-    IN Number(CASE lay.ml = "none"   -> <<L("lamA", b, 1)>>
+    IN Number(CASE lay.embed \in MultiEmbeds -> MultiText(lay)
+                [] lay.ml = "none"   -> <<L("lamA", b, 1)>>
                 [] lay.ml = "own"    -> <<L("lamA", b, 1), L("lamB", c, 1)>>
                 [] lay.ml = "bs"     -> <<L("lamA", b, 1), L("lamB", c, 1)>>
                 [] lay.ml = "outer"  -> <<L("lamA", b, 1), L("lamB", c, 0)>>
@@ -141,7 +159,11 @@ Text(lay) == IF IsDef(lay) THEN DefText(lay) ELSE LamText(lay)
 \*                            x body x tail{none,tc,last}
 \*   def forms, one-line body: form x ws x deco x pre x doc{0,2} x tail{none,tc}
 \*   lambda forms           : form x ws x embed x ml x lbody x lpar x cmt, LamValid
+\*   several lambdas (lamobj): ws x embed{dict,pair,same} x pick x ml{none,own,outer} x lbody
+\*                            x lpar x cmt, MultiValid
+\*   lbody "nest": the body of the lambda contains another lambda (in its second part)
 Embeds == {"bare", "assign", "semi", "call", "paren"}
+MultiValid(e, m, pk) == pk <= NEntries(e) /\ (e = "same" => m = "none")
 MlKinds == {"none", "own", "bs", "outer", "before", "after"}
 LamValid(f, e, m) ==
     /\ (m \in {"outer", "before", "after"} => e \in {"call", "paren"})
@@ -154,11 +176,11 @@ Mix(lay) ==
     + 11 * StrNo(lay.pre, <<"none", "both">>)
     + 13 * StrNo(lay.hdr, <<"norm", "ann", "ml", "one", "-">>)
     + 17 * StrNo(lay.tail, <<"none", "tc", "last", "-">>)
-    + 19 * StrNo(lay.embed, <<"bare", "assign", "semi", "call", "paren", "-">>)
+    + 19 * StrNo(lay.embed, <<"bare", "assign", "semi", "call", "paren", "dict", "pair", "same", "-">>)
     + 23 * StrNo(lay.ml, <<"none", "own", "bs", "outer", "before", "after", "-">>)
-    + 29 * StrNo(lay.lbody, <<"plain", "compr", "pp", "-">>)
+    + 29 * StrNo(lay.lbody, <<"plain", "compr", "pp", "nest", "-">>)
     + 31 * StrNo(lay.lpar, <<"xy", "x", "none", "-">>)
-    + (IF lay.cmt THEN 37 ELSE 0)
+    + (IF lay.cmt THEN 37 ELSE 0) + 43 * lay.pick
     + 41 * StrNo(lay.form, <<"deftext", "funcobj", "lamtext", "lamobj">>)
 
 \* a hash of all the dimensions (sampling)
@@ -166,10 +188,10 @@ Digits(lay) ==
     << StrNo(lay.form, <<"deftext", "funcobj", "lamtext", "lamobj">>), WsNo(lay.ws), lay.deco,
        StrNo(lay.pre, <<"none", "both">>), StrNo(lay.hdr, <<"norm", "ann", "ml", "one", "-">>),
        lay.doc, lay.body, StrNo(lay.tail, <<"none", "tc", "last", "-">>),
-       StrNo(lay.embed, <<"bare", "assign", "semi", "call", "paren", "-">>),
+       StrNo(lay.embed, <<"bare", "assign", "semi", "call", "paren", "dict", "pair", "same", "-">>),
        StrNo(lay.ml, <<"none", "own", "bs", "outer", "before", "after", "-">>),
-       StrNo(lay.lbody, <<"plain", "compr", "pp", "-">>), StrNo(lay.lpar, <<"xy", "x", "none", "-">>),
-       IF lay.cmt THEN 1 ELSE 0 >>
+       StrNo(lay.lbody, <<"plain", "compr", "pp", "nest", "-">>), StrNo(lay.lpar, <<"xy", "x", "none", "-">>),
+       IF lay.cmt THEN 1 ELSE 0, lay.pick >>
 RECURSIVE HashFrom(_, _, _)
 HashFrom(h, ds, i) == IF i > Len(ds) THEN h ELSE HashFrom((h * 31 + ds[i] + 1) % 10007, ds, i + 1)
 Hash(lay, seed) == HashFrom(seed % 10007, Digits(lay), 1)
@@ -316,11 +338,23 @@ ExtractLambda(T) ==
 \* _init_from_lambda (formula.py:425-440): exec("_lambdafunc = " + src) needs every line
 \* break inside src to be protected by src itself (before the repair KF1 it was not when
 \* only the enclosing brackets allowed it; now such a break gets a backslash)
+\* extract_lambda_from_func (formula.py:330-351) looks for the Lambda nodes that START on the
+\* line of the function's code object: the lambda itself, a lambda nested in it when it
+\* starts on that line (the nested one sits in the second part of the body: on that line
+\* unless a line break precedes it), a sibling on the same line.  More than one: ValueError
+\* "more than 1 lambda expressions found" -- the documented limit of the object forms.
+\* (Texts: extract_lambda_from_source takes the first Lambda of ast.walk, the outermost.)
+LambdasOnLine(lay) ==
+    1 + (IF lay.lbody = "nest" /\ lay.ml \notin {"own", "bs", "outer"} THEN 1 ELSE 0)
+      + (IF lay.embed = "same" THEN 1 ELSE 0)
+Unsupported(lay) == lay.form = "lamobj" /\ LambdasOnLine(lay) > 1
+
 LamExecErr(T) ==
     IF "KF1" \notin Fixed /\ \E i \in DOMAIN T : T[i].k = "lamB" /\ T[i].d = 0 THEN "SyntaxError" ELSE ""
 PipelineLam(lay, T) ==
     LET X == ExtractLambda(IF lay.form = "lamobj" THEN T ELSE Dedent(T))
-    IN IF LamExecErr(X) # "" THEN [err |-> LamExecErr(X), lines |-> <<>>]
+    IN IF Unsupported(lay) THEN [err |-> "ValueError", lines |-> <<>>]
+       ELSE IF LamExecErr(X) # "" THEN [err |-> LamExecErr(X), lines |-> <<>>]
        ELSE [err |-> "", lines |-> X]
 
 \* docstring of a def text: [code, exact, cont]
@@ -533,7 +567,8 @@ OpLabels(lay, T0, op, arg, cn, g, p, o) ==
         dv == ValsOf(lay, DedentTW(T0), g)      \* the values if textwrap.dedent interfered
     IN
     CASE op = "capture" ->
-            IF o.ok THEN StateLabels(lay, T0, cn, ev, dv, o)
+            IF o.ok THEN StateLabels(lay, T0, cn, ev, dv, o)      \* (Unsupported: rejected or right)
+            ELSE IF Unsupported(lay) /\ o.err = "ValueError" THEN {}   \* the documented limit
             ELSE IF KF_LamOuter(lay) /\ o.err = "SyntaxError" THEN {KF1}
             ELSE IF KF_Col0(lay, T0) /\ o.err = "IndentationError" THEN {KF2}
             ELSE {"C20.Accepted"}
